@@ -193,12 +193,18 @@ class Api:
                     return z
         raise KeyError("no zone %d" % i)
 
-    def _subscriber(self, kind, sid, raises):
+    def _subscriber(self, kind, sid, raises, flavour=None):
         api = self
 
         class Sub:
+            undo = None
+
             async def __call__(self, ident):
                 api.out.append("NOTIFY %s %s %s" % (kind, canon(ident) if isinstance(ident, str) else ident, sid))
+                if flavour == "once" and self.undo is not None:
+                    self.undo(self)                     # a one-shot subscriber: unsubscribes itself from inside its callback
+                elif flavour == "caller":
+                    await api.at.check_for_updates()    # an application reacting to news with a request of its own
                 if raises:
                     raise RuntimeError("subscriber %s raises" % sid)
 
@@ -318,21 +324,27 @@ class Api:
 
     def _subunsub(self, k, w):
         raises = w[-1] == "raise"
-        if raises:
+        flavour = w[-1] if w[-1] in ("once", "caller") else None
+        if raises or flavour:
             w = w[:-1]
         if w[0] == "at":
-            s = self._subscriber("at", w[1], raises)
+            s = self._subscriber("at", w[1], raises, flavour)
+            s.undo = self.at.unsubscribe
             (self.at.subscribe if k == "sub" else self.at.unsubscribe)(s)
         elif w[0] == "ac":
             a = self._ac(int(w[1]))
-            s = self._subscriber("ac", "%s:%s" % (w[2], w[3]), raises)
+            # sids both*: ONE callable registered through both subscribe() and subscribe_ac_state() (the same object on both channels)
+            s = self._subscriber("ac", ("both:%s" % w[3]) if w[3].startswith("both") else "%s:%s" % (w[2], w[3]), raises, flavour)
             if w[2] == "general":
+                s.undo = a.unsubscribe
                 (a.subscribe if k == "sub" else a.unsubscribe)(s)
             else:
+                s.undo = a.unsubscribe_ac_state
                 (a.subscribe_ac_state if k == "sub" else a.unsubscribe_ac_state)(s)
         elif w[0] == "zone":
             z = self._zone(int(w[1]))
-            s = self._subscriber("zone", w[2], raises)
+            s = self._subscriber("zone", w[2], raises, flavour)
+            s.undo = z.unsubscribe
             (z.subscribe if k == "sub" else z.unsubscribe)(s)
 
     def run(self, lines):
